@@ -540,6 +540,8 @@ def _block_source_operands(repo, c):
         for n in full_walk(f.node):
             if isinstance(n, ast.Call) and (dotted(n.func) or "").rsplit(".", 1)[-1] == "TaskRef" and n.args:
                 work.append(n.args[0])
+            elif isinstance(n, ast.Call) and (dotted(n.func) or "").rsplit(".", 1)[-1] == "Alias" and len(n.args) == 2:
+                work.append(n.args[1])  # Alias(out_key, in_key): the block read
         while work:
             e = work.pop()
             for m in ast.walk(e):
@@ -568,8 +570,6 @@ def _lowers_to_positional_pairing(repo, c):
 
 
 GRID_LITERAL_REVIEWED = {
-    "ChunksOverride": "a layout barrier: it exists to re-label its input's blocks one-to-one under user-supplied sizes; R03.3 checks that it aliases same-coordinate keys over exactly that grid and _materialize bridges what is below it",
-    "ReshapeLowered": "built by Reshape._lower over an input it has just rechunked to the grid its block mapping needs (the Rechunk's target is fixed by its operand)",
     "Rechunk": "the literal is the node's own target layout; its layer is planned from the input's current chunks",
     "TasksRechunk": "as Rechunk: planned from the input's current chunks to the literal target",
 }
